@@ -269,3 +269,27 @@ func StringsTrimSpace(s string) string {
 	}
 	return s[start:end]
 }
+
+// ReplacerReplace models (*strings.Replacer).Replace for non-empty old strings: matches are
+// taken left to right without overlap, the pairs are tried in argument order at each position.
+func ReplacerReplace(s string, pairs []string) string {
+	out := make([]byte, 0, len(s))
+	i := 0
+	for i < len(s) {
+		matched := false
+		for p := 0; p+1 < len(pairs); p += 2 {
+			old := pairs[p]
+			if len(old) > 0 && i+len(old) <= len(s) && s[i:i+len(old)] == old {
+				out = append(out, pairs[p+1]...)
+				i += len(old)
+				matched = true
+				break
+			}
+		}
+		if !matched {
+			out = append(out, s[i])
+			i++
+		}
+	}
+	return string(out)
+}
